@@ -454,7 +454,12 @@ func (d *DNSFilter) updateIntl(flt *FilterYAML) (ok bool, err error) {
 	if err != nil {
 		return false, err
 	}
-	defer func() { err = d.finalizeUpdate(tmpFile, flt, res, err, ok) }()
+	defer func() {
+		err = d.finalizeUpdate(tmpFile, flt, res, err, ok)
+
+		// A list whose file could not be replaced has not been updated.
+		ok = ok && err == nil
+	}()
 
 	r, err := d.reader(flt.URL)
 	if err != nil {
